@@ -4,11 +4,13 @@ document source of C07/C17) and `canon2 <seed> <size>` (whole class: + tables, .
 PRNG inside the driver, so that the `write`, `toTree` and `refHtml` executed are the proved
 definitions, and answers `<ok> <hex write d> <hex refHtml d> <tree wire of toTree d>`.
 `Wire.print` is the inverse of `Wire.tree?` (Comrak/Ast.lean).
+`canoncm <seed> <size>` generates a document of the class of `C17.cm_fixed_point_canon_partial` (see below).
 -/
 import Comrak.Drv.Util
 import Comrak.Canon.Ok
 import Comrak.Canon.Ref
 import Comrak.Canon.Pos
+import Comrak.Lemmas.CmCanonC
 namespace Comrak.Wire
 open Comrak Bytes
 
@@ -570,10 +572,143 @@ def answer (ext : Bool) (seed size : String) : Except String String := do
   pure (outBool d.ok ++ " " ++ outHex d.write ++ " " ++ outHex d.refHtml ++ " " ++ Wire.print d.toTree ++
     (if ext then " | " ++ Wire.print d.toTreeP ++ " | " ++ outBool d.posOk else ""))
 
+/-! ## `canoncm`: documents of the class of `C17.cm_fixed_point_canon_partial`
+
+`canoncm <seed> <size>` answers `<hyp> <eq> <hex write d> <tree wire of toTree d>`: `hyp` = the
+hypotheses of the theorem hold (`d.ok && d.cmOk`), `eq` = the evaluated
+`renderCm {} d.toTree == d.write` (the theorem says `hyp` implies `eq`). -/
+
+def genCmWord : Gen (List Atom) := do
+  let n ← below 5
+  let first ← genAlnum
+  let rest ← genPlains n
+  let last ← genAlnum
+  -- sometimes one of the marks the writer escapes everywhere, written as a backslash escape
+  let esc : List Atom ← if ← chance 1 4 then pure [Atom.esc (← pick [0x2A, 0x5F, 0x5B, 0x5D, 0x23, 0x3C, 0x3E, 0x5C, 0x60, 0x21])]
+    else pure []
+  pure (if n == 0 then [first] else [first] ++ rest.filter (fun a => !a.isSpace) ++ esc ++ [last])
+
+/-- Words separated by single spaces. -/
+def genCmText (lead trail : Bool) : Gen Inl := do
+  let n ← below 3
+  let w0 ← genCmWord
+  let mut as := w0
+  for _ in [0:n] do
+    let w ← genCmWord
+    as := as ++ [.ch 0x20] ++ w
+  pure (.text ((if lead then [.ch 0x20] else []) ++ as ++ (if trail then [.ch 0x20] else [])))
+
+def genCmSpan : Gen Inl := do
+  let k ← below 8
+  let t ← genCmText false false
+  if k == 7 then
+    if ← chance 1 2 then pure (.strike (Inls.ofList [t]))
+    else pure (.autolink (← pick [0, 1, 2, 4]) (← genBytes alnums (1 + (← below 6))))   -- not `mailto:`
+  else
+  if k ≥ 5 then
+    let url ← genUrl false
+    let title ← genTitle
+    let title := title.filter fun c => !(c == 0x3C || c == 0x3E)
+    -- inside brackets `Doc.ok` wants escapes in text nodes of their own: keep the link text plain
+    let t : Inl := match t with
+      | .text as => .text (as.filter fun a => match a with | .esc _ => false | _ => true)
+      | x => x
+    if k == 5 then pure (.link url title false .inline (Inls.ofList [t]))
+    else pure (.image url title false (Inls.ofList [t]))
+  else
+  if k == 0 then pure (.emph false (Inls.ofList [t]))
+  else if k == 1 then pure (.strong false (Inls.ofList [t]))
+  else if k == 2 then
+    let w ← genBytes alnums (1 + (← below 6))
+    pure (.code 1 w)
+  else if k == 3 then
+    let a ← genCmText false true
+    let c ← genCmText true false
+    pure (.strong false (Inls.ofList [a, .emph false (Inls.ofList [t]), c]))
+  else
+    let a ← genCmText false true
+    let c ← genCmText true false
+    pure (.emph false (Inls.ofList [a, .strong false (Inls.ofList [t]), c]))
+
+/-- Text, spans between texts, sometimes a soft or hard break before a last text. -/
+def genCmInls (breaks : Bool) : Gen Inls := do
+  let n ← below 3
+  let mut out : List Inl := []
+  if n == 0 then
+    out := [← genCmText false false]
+  else
+    out := [← genCmText false true]
+    for i in [0:n] do
+      let x ← genCmSpan
+      let t ← genCmText true (i + 1 < n)
+      out := out ++ [x, t]
+  if breaks && (← chance 1 3) then
+    let b : Inl := if ← chance 1 2 then .soft else .hard true
+    out := out ++ [b, ← genCmText false false]
+  pure (Inls.ofList out)
+
+def genCmLeaf : Gen Blk := do
+  if ← chance 1 4 then pure (.heading (1 + (← below 6)) (← genCmInls false))
+  else pure (.para (← genCmInls true))
+
+def genCmList : Nat → Bool → Gen Blk
+  | 0, _ => genCmLeaf
+  | fuel + 1, top => do
+    let tight ← if top then chance 2 3 else pure true
+    let n ← below 3
+    let mut items : List (Task × Blks) := []
+    for _ in [0:if tight then n + 1 else n + 2] do
+      -- a task marker stands before a paragraph
+      let task : Task ← if ← chance 1 4 then (do if ← chance 1 2 then pure Task.unchecked else pure (Task.checked (← pick [0x78, 0x58])))
+        else pure Task.no
+      let first ← if task.isTask then (do pure (Blk.para (← genCmInls true))) else genCmLeaf
+      let nested ← if tight && (← chance 1 3) then pure [← genCmList fuel false] else pure []
+      let more ← if tight && nested.isEmpty && (← chance 1 5) then
+          pure [Blk.heading (1 + (← below 6)) (← genCmInls false)] else pure []
+      items := items ++ [(task, Blks.ofList ([first] ++ more ++ nested))]
+    let ordered ← chance 2 5
+    let start ← if !top || (← chance 1 2) then pure 1 else pick [0, 2, 7, 9, 10, 42, 99, 100, 999, 999999990]
+    pure (.list { ordered := ordered, start := start, paren := ← chance 1 3, tight := tight } (Items.ofListT items))
+
+def genCmBlk (fuel : Nat) : Gen Blk := do
+  let k ← below 10
+  if k < 3 then genCmLeaf
+  else if k < 4 then pure (.hr 0x2D 5)
+  else if k < 6 then pure (.quote (Blks.ofList [← if ← chance 1 3 then genCmList fuel false else genCmLeaf]))
+  else genCmList fuel true
+
+def genCmDocTry (seed size salt : Nat) : Doc :=
+  let g : Gen Doc := do
+    let n := 1 + size % 4 + size / 6
+    let mut bs : List Blk := []
+    for _ in [0:n] do
+      let b ← genCmBlk (1 + min 3 (size / 3))
+      -- the writer separates two lists by a comment: keep them apart
+      let sep : List Blk := match bs.getLast?, b with
+        | some (.list ..), .list .. => [.hr 0x2D 5]
+        | _, _ => []
+      bs := bs ++ sep ++ [b]
+    pure { blocks := Blks.ofList bs }
+  g.run' (seedOf (seed * 64 + size + salt * 1000003 + 77)) |> Id.run
+
+def genCmDoc (seed size : Nat) : Doc :=
+  let rec go : Nat → Nat → Doc
+    | 0, _ => { blocks := .nil }
+    | k + 1, salt => let d := genCmDocTry seed size salt; if d.ok && d.cmOk then d else go k (salt + 1)
+  go 5 0
+
+def answerCm (seed size : String) : Except String String := do
+  let seed ← (seed.toNat?.map Except.ok).getD (.error "bad-seed")
+  let size ← (size.toNat?.map Except.ok).getD (.error "bad-size")
+  let d := genCmDoc seed size
+  pure (outBool (d.ok && d.cmOk) ++ " " ++ outBool (Cm.renderCm {} d.toTree == d.write) ++ " " ++ outHex d.write ++ " " ++
+    Wire.print d.toTree)
+
 def handle : Handler := fun cmd args =>
   match cmd, args with
   | "canon", [seed, size] => some (answer false seed size)
   | "canon2", [seed, size] => some (answer true seed size)
+  | "canoncm", [seed, size] => some (answerCm seed size)
   | _, _ => none
 
 end Comrak.Drv.Canon
